@@ -386,7 +386,16 @@ def check_c13(tier, seed):
                 equal_impl[sp["Name"]] = (not k["Panic"] and w["Term"] == k["Term"] and sorted(w["Events"] or []) == sorted(k["Events"] or [])
                                           and norm_params(w["Params"]) == norm_params(k["Params"]))
         mdiffs = []
-        for (r, root), m in zip(units, model):
+        faithful_units, faithful_bad = 0, []
+        for (r, root), m_full in zip(units, model):
+            m = " ".join(m_full.split()[:3]) if m_full.startswith("W migrate=ok") else " ".join(m_full.split()[:2])
+            if "faithful=true" in m_full and "complete=true" in m_full:
+                # C13_partial's premises hold in the model: the implementation must migrate and agree with wire
+                faithful_units += 1
+                nm0 = str(r["k"]) + (":2" if root else "")
+                if r["mig_rc"] != 0 or not equal_impl.get(nm0, False):
+                    if not (root and r["mig_rc"] != 0):
+                        faithful_bad.append((r["desc"] + (" [Init2]" if root else ""), m_full))
             nm = str(r["k"]) + (":2" if root else "")
             if r["mig_rc"] != 0:
                 if root:
@@ -400,6 +409,12 @@ def check_c13(tier, seed):
                 mdiffs.append((r["desc"] + (" [Init2]" if root else ""), m, impl))
         R.oblige("correspondence: Wire.wireEval / Wire.migrate / Wire.kEval predict, per configuration, refusal and equality of the two injectors (%d configurations)" % len(accepted),
                  not mdiffs, "%d differ; first: %s" % (len(mdiffs), mdiffs[:1]))
+        R.oblige("C13_partial applies (Wire.faithful, wire's term complete) => the real migrated injector equals wire's (%d injectors)" % faithful_units,
+                 not faithful_bad, "%d faithful configurations disagree; first: %s" % (len(faithful_bad), faithful_bad[:1]))
+        R.coverage["faithful_injectors"] = faithful_units
+        if faithful_bad and not R.violations:
+            R.violation("configurations inside the proved-faithful subset on which the implementation differs from wire: %s" % (faithful_bad[:2],),
+                        {"kind": "correspondence-broken", "correspondence": "C13_partial's subset vs real wire + kessoku migrate", "first": faithful_bad[:3]})
         if mdiffs and not R.violations:
             R.violation("the wire/migrate model and the implementation disagree on %d configurations" % len(mdiffs),
                         {"kind": "correspondence-broken", "correspondence": "Lean Wire model vs real wire + kessoku migrate", "first": mdiffs[:3]})
@@ -411,3 +426,223 @@ def check_c13(tier, seed):
     finally:
         close_streams()
     return R.finish("cd lean && lake build KV.Props.C13 && lake env lean <audit of Props/C13 theorems>", TRUSTED)
+
+
+# ================================================================================================ C14
+
+from . import wiregen14 as W14
+
+TRUSTED14 = [
+    "Lean 4.33.0 kernel; axioms allowed: propext, Classical.choice, Quot.sound (audited per theorem)",
+    "factgen's reading of MigrateFiles / Writer.Write / main (ordered calls, error returns) and of the map ranges",
+    "gofmt-stable and compiles are verdicts of the real tools (gofmt -l, go build) on every sampled output; Lean contains neither",
+    "the model Imp.addImport is tied to TypeConverter.AddImport by differential correspondence on seeded call histories (verif-tagged in-process driver)",
+    "wiregen14 (seeded generator of import-heavy wire configurations and of the five failure kinds)",
+]
+
+def _write_files(root, files):
+    for rel, txt in files.items():
+        p = os.path.join(root, rel)
+        os.makedirs(os.path.dirname(p), exist_ok=True)
+        open(p, "w").write(txt)
+
+def import_histories(rng, n):
+    """AddImport call histories over few paths and collision-prone names (incl. names that look like generated aliases)"""
+    names = ["a", "a_1", "a_2", "b", "b_1", "a_1_1", "c"]
+    lines = []
+    for _ in range(n):
+        k = rng.randint(1, 9)
+        ops = []
+        for _ in range(k):
+            p = rng.randint(0, 5)
+            # the path decides the last element: p/<name> so that the alias-omission rule is exercised too
+            nm = rng.choice(names)
+            last = rng.choice([nm, nm, "z%d" % p])
+            ops.append("ex/p%d/%s=%s" % (p, last, nm))
+        lines.append("I " + " ".join(ops))
+    return lines
+
+def c14_known(case_desc, uses, names, text):
+    """classify a failing case against the recorded findings (by the construct that makes it fail)"""
+    return None
+
+def check_c14(tier, seed):
+    R = C.Result("C14", tier, seed)
+    repo_dir = C.ensure_repo_build()
+    lean_obligations(R, "C14", repo_dir)
+    cli = os.path.join(repo_dir, "kessoku")
+    rng = G.SplitMix64(seed * 11 + 5)
+    ws = Workspace("c14s%d" % seed)
+    try:
+        # ---- (1) AddImport histories: Lean model vs the real TypeConverter
+        prepare(repo_dir)
+        nh = 4000 if tier == "quick" else 60000
+        hist = import_histories(rng, nh)
+        model = C.lean_driver(hist)
+        rc, impl, out = C.go_driver(repo_dir, "migrate", hist)
+        diffs = [(h, m, i) for h, m, i in zip(hist, model, impl) if m != i]
+        if len(impl) != len(hist):
+            diffs.append(("driver", "%d lines" % len(hist), "%d lines; %s" % (len(impl), out[-300:])))
+        R.oblige("correspondence: Imp.addImport / Imports() vs TypeConverter.AddImport / Imports() on %d call histories" % nh, not diffs,
+                 "%d differ; first: %s" % (len(diffs), diffs[:1]))
+        # the property judged directly on the implementation's answers: same path <-> same name, within every history
+        bad_alias = None
+        collisions = 0
+        for h, i in zip(hist, impl):
+            if not i.startswith("I "):
+                continue
+            ops = [o.split("=") for o in h[2:].split()]
+            outs = i[2:].split("|")[0].split()
+            if len(outs) != len(ops):
+                continue
+            for x in range(len(ops)):
+                for y in range(x):
+                    if (ops[x][0] == ops[y][0]) != (outs[x] == outs[y]):
+                        bad_alias = (h, i)
+            if len(set(outs)) < len(outs) or any(o != op[1] for o, op in zip(outs, ops)):
+                collisions += 1
+        if bad_alias:
+            R.violation("AddImport gives two packages one name (or one package two names): %s -> %s" % bad_alias,
+                        {"kind": "input", "failing_input": {"history": bad_alias[0]}, "observed": bad_alias[1],
+                         "reproduce": "VERIF_OPS=<file with the history line> go test -tags verif -run TestVerifDriver ./internal/migrate"})
+        elif diffs:
+            R.violation("the import-table model and TypeConverter disagree on %d histories, none of which breaks alias consistency" % len(diffs),
+                        {"kind": "correspondence-broken", "correspondence": "Imp.addImport vs TypeConverter.AddImport", "first": diffs[:3]})
+        # ---- (2) end to end: seeded import-heavy configurations
+        n = 40 if tier == "quick" else 400
+        cases = []
+        for k in range(n):
+            case = W14.gen_case(rng)
+            files, meta = W14.render(case, "c%d" % k, "m%d" % k)
+            _write_files(ws.root, files)
+            cases.append(dict(k=k, case=case, meta=meta, files=files, desc=W14.describe(case)))
+        def run_migrate(c, out_rel, extra_env=None):
+            e = ws.env()
+            if extra_env:
+                e.update(extra_env)
+            return C.run([cli, "migrate", "-o", out_rel, "./m%d" % c["k"]], cwd=ws.root, extra_env=e, timeout=300)
+        from concurrent.futures import ThreadPoolExecutor
+        def one(c):
+            outp = os.path.join(ws.root, "m%d" % c["k"], "kessoku.go")
+            rc, out = run_migrate(c, outp)
+            c["rc"], c["out"] = rc, out[-1200:]
+            c["written"] = os.path.exists(outp)
+            if c["written"]:
+                c["text"] = open(outp).read()
+                reruns = []
+                for procs in ("1", "7"):
+                    os.remove(outp)
+                    run_migrate(c, outp, {"GOMAXPROCS": procs})
+                    reruns.append(open(outp).read() if os.path.exists(outp) else None)
+                c["same"] = all(t == c["text"] for t in reruns)
+                # history: the output path already holds something (the previous output, a longer stale file,
+                # a truncated one): the result must be what a fresh path gets
+                hist = {}
+                os.remove(outp)          # (a kessoku.go inside the package would be loaded as input)
+                for label, prev in (("previous-output", c["text"]), ("longer-stale-file", c["text"] + "\nvar Stale = kessoku.Set(\n\tkessoku.Provide(NewStale),\n)\n" * 3),
+                                    ("truncated-file", c["text"][: len(c["text"]) // 2])):
+                    # (outside the migrated package: a file inside it would be loaded as part of the input)
+                    hp = os.path.join(ws.root, "h%d" % c["k"], "out.go")
+                    os.makedirs(os.path.dirname(hp), exist_ok=True)
+                    open(hp, "w").write(prev)
+                    run_migrate(c, hp)
+                    got = open(hp).read() if os.path.exists(hp) else None
+                    if got != c["text"]:
+                        hist[label] = got
+                c["history_diff"] = hist
+                open(outp, "w").write(c["text"])
+                rcf, outf = C.run(["gofmt", "-l", outp], timeout=60)
+                c["gofmt_dirty"] = bool(outf.strip()) or rcf != 0
+                for fn in c["meta"]["wire_files"]:
+                    os.remove(os.path.join(ws.root, "m%d" % c["k"], fn))
+            return c
+        with ThreadPoolExecutor(8) as ex:
+            cases = list(ex.map(one, cases))
+        written = [c for c in cases if c.get("written")]
+        # one build for all migrated packages; errors are attributed by path
+        rc, out = C.run(["go", "build", "-gcflags=-e"] + ["./m%d/" % c["k"] for c in written], cwd=ws.root, extra_env=ws.env(), timeout=1200)
+        errs = collections.defaultdict(list)
+        for l in out.splitlines():
+            m = re.match(r"^(?:\./)?m(\d+)/[\w.]+:\d+:\d+: (.*)", l)
+            if m:
+                errs[int(m.group(1))].append(m.group(2))
+        if rc != 0 and not errs:
+            R.violation("the migrated packages do not build and the errors could not be attributed: %s" % out[-600:],
+                        {"kind": "correspondence-broken", "correspondence": "go build of migrated packages", "detail": out[-1500:]})
+        stats = collections.Counter()
+        def report(c, what, text):
+            fid = None
+            cs = c["case"]
+            # recorded findings are identified by the construct that triggers them
+            for u in c["meta"]["uses"]:
+                d, pn = W14.CATALOGUE[u["pkg"]]
+                nm, explicit = cs["names"]["%d:%d" % (u["file"], u["pkg"])]
+                last = d.split("/")[-1]
+                if not explicit and pn != last and u["kind"] in ("fn", "val", "bind", "ival", "fieldsof"):
+                    fid = "C14-import-name-guessed-from-path"
+            rp = {"kind": "input", "failing_input": {"case": c["desc"], "sources": c["files"]}, "what": what, "migrated": c.get("text"),
+                  "observed": text, "reproduce": "write the sources into a module, run `kessoku migrate -o m/kessoku.go ./m`, set the wire files aside, `go build ./m/`"}
+            if fid:
+                R.finding(fid, "%s [%s]" % (text, c["desc"]), rp)
+            else:
+                R.violation("%s [%s]" % (text, c["desc"]), rp)
+        for c in cases:
+            for u in c["meta"]["uses"]:
+                stats["use:" + u["kind"]] += 1
+            stats["files:%d" % len(c["meta"]["wire_files"])] += 1
+            if c["rc"] != 0:
+                stats["refused"] += 1
+                if c["written"]:
+                    report(c, "written-on-failure", "migrate failed (%s) but wrote an output file" % c["out"].strip().splitlines()[-1][:160])
+                else:
+                    # a legal wire configuration that migrate refuses is C13's business; here only: no file on failure
+                    pass
+                continue
+            if not c["written"]:
+                stats["no-output"] += 1
+                continue
+            stats["written"] += 1
+            if c["gofmt_dirty"]:
+                report(c, "not-gofmt-stable", "the migrated file is not gofmt-stable")
+            if not c["same"]:
+                report(c, "not-deterministic", "repeated runs (GOMAXPROCS 1 / 7) produced different bytes")
+            for label, got in c.get("history_diff", {}).items():
+                report(c, "depends-on-previous-output", "migrating onto an output path that holds a %s gives different bytes than a fresh path (%s)" % (
+                    label, "no file" if got is None else "tail: %r" % got[-80:]))
+            decl = re.findall(r"^var (\w+) = kessoku\.Set\(", c["text"], re.M)
+            if sorted(decl) != sorted(c["meta"]["sets"]):
+                report(c, "sets", "sets declared %s, source sets %s" % (decl, c["meta"]["sets"]))
+            if c["k"] in errs:
+                e = errs[c["k"]]
+                kind = "unused-import" if any("imported and not used" in x for x in e) else ("missing-import" if any("undefined:" in x for x in e) else "does-not-compile")
+                report(c, kind, "the migrated file does not compile in the source package (%s): %s" % (kind, "; ".join(e[:3])))
+            else:
+                stats["compiles"] += 1
+        # ---- (3) failure kinds: non-zero exit, no output file (fresh path) / untouched file (existing path)
+        fail_rows = []
+        for kind in W14.FAIL_KINDS:
+            for pre in (False, True):
+                prefix = "f_%s_%d_" % (kind.replace("-", "_"), int(pre))
+                files, patterns = W14.render_failure(kind, prefix)
+                _write_files(ws.root, files)
+                outp = os.path.join(ws.root, prefix + "out.go")
+                sentinel = "package sentinel // previous content\n"
+                if pre:
+                    open(outp, "w").write(sentinel)
+                rc, out = C.run([cli, "migrate", "-o", outp] + patterns, cwd=ws.root, extra_env=ws.env(), timeout=300)
+                exists = os.path.exists(outp)
+                okfile = (exists and open(outp).read() == sentinel) if pre else (not exists)
+                fail_rows.append(dict(kind=kind, preexisting=pre, exit=rc, output_ok=okfile, message=out.strip().splitlines()[-1][:160] if out.strip() else ""))
+                if rc == 0 or not okfile:
+                    R.violation("failure kind '%s' (%s output path): exit code %d, output file %s" % (kind, "existing" if pre else "fresh", rc,
+                                "untouched" if okfile else ("overwritten" if pre else "written")),
+                                {"kind": "input", "failing_input": {"failure_kind": kind, "sources": files, "patterns": patterns, "preexisting_output": pre},
+                                 "observed": {"exit": rc, "message": out[-400:]}, "reproduce": "kessoku migrate -o out.go " + " ".join(patterns)})
+        R.coverage["failure_kinds"] = fail_rows
+        R.samples = [{"case": c["desc"], "exit": c["rc"], "migrated": (c.get("text") or "")[:700]} for c in cases[:4]]
+        R.coverage.update({"evaluations": len(cases) + len(fail_rows) + nh, "programs": len(cases), "distinct_nontrivial": len(set(c["desc"] for c in written)),
+                           "histories": nh, "histories_with_collision": collisions, "end_to_end": dict(stats),
+                           "rule": "seeded wire packages using 1-4 external packages (same package name under different paths, package name != last path element, version directories) under implicit / explicit / clashing local names, in type position (Bind, Struct, FieldsOf, InterfaceValue) and expression position (provider functions, Value), spread over 1-3 wire files merged into one output; each successful output is checked for gofmt stability, byte identity over 3 runs, set declarations, and compiled with the wire files set aside; five failure kinds x fresh/existing output path; distinct = distinct case descriptions that produced a file"})
+    finally:
+        ws.close()
+    return R.finish("cd lean && lake build KV.Props.C14 && lake env lean <audit of Props/C14 theorems>", TRUSTED14)
